@@ -37,6 +37,11 @@ func VerifT3Replay() {
 	case "array":
 		verifT3Array()
 		return
+	case "tokens":
+		verifT3Tokens()
+		return
+	case "mapkey":
+		text = `{"` + strconv.FormatUint(v.Uint64("integer"), 10) + `":1}`
 	case "double":
 		text = strconv.FormatFloat(math.Float64frombits(v.Uint64("double")), 'g', 17, 64)
 	case "integer":
@@ -89,6 +94,8 @@ func VerifT3Replay() {
 		mk = func() interface{} { return new([]int) }
 	case "generic":
 		mk = func() interface{} { return new(interface{}) }
+	case "map_u32":
+		mk = func() interface{} { return new(map[uint32]int) }
 	default:
 		panic("VERIF_T3_TYPE not set")
 	}
@@ -210,12 +217,41 @@ func verifT3EncBuffer() {
 	c0 := int(v.Uint64("cap"))
 	_ = v.Uint64("len")
 	_ = v.Uint64("strlen")
-	strs := []string{"", "a", "a\"b", "\x01", "ab\x01\"", "\"\"\"\"", "abcd"}
-	for _, sv := range strs {
-		var val interface{} = sv
-		if os.Getenv("VERIF_T3_TYPE") == "qstring" {
-			val = verifQS{A: sv}
+	var vals []interface{}
+	switch os.Getenv("VERIF_T3_TYPE") {
+	case "qstring":
+		for _, sv := range []string{"", "a", "a\"b", "\x01", "ab\x01\"", "\"\"\"\"", "abcd"} {
+			vals = append(vals, verifQS{A: sv})
 		}
+	case "int8":
+		vals = []interface{}{int8(math.MinInt8), int8(math.MaxInt8), int8(0), int8(-1), int8(v.Uint64("scalar"))}
+	case "int16":
+		vals = []interface{}{int16(math.MinInt16), int16(math.MaxInt16), int16(0), int16(v.Uint64("scalar"))}
+	case "int32":
+		vals = []interface{}{int32(math.MinInt32), int32(math.MaxInt32), int32(0), int32(v.Uint64("scalar"))}
+	case "int64":
+		vals = []interface{}{int64(math.MinInt64), int64(math.MaxInt64), int64(0), int64(v.Uint64("scalar"))}
+	case "uint8":
+		vals = []interface{}{uint8(math.MaxUint8), uint8(0), uint8(v.Uint64("scalar"))}
+	case "uint16":
+		vals = []interface{}{uint16(math.MaxUint16), uint16(0), uint16(v.Uint64("scalar"))}
+	case "uint32":
+		vals = []interface{}{uint32(math.MaxUint32), uint32(0), uint32(v.Uint64("scalar"))}
+	case "uint64":
+		vals = []interface{}{uint64(math.MaxUint64), uint64(0), uint64(v.Uint64("scalar"))}
+	case "float64":
+		vals = []interface{}{-2.2250738585072014e-308, -1.7976931348623157e308, 0.0, 5e-324, 1e21, 123456.789}
+	case "float32":
+		vals = []interface{}{float32(-1.17549435e-38), float32(-3.4028235e38), float32(0), float32(1e21)}
+	case "bool":
+		vals = []interface{}{true, false}
+	default:
+		for _, sv := range []string{"", "a", "a\"b", "\x01", "ab\x01\"", "\"\"\"\"", "abcd"} {
+			vals = append(vals, sv)
+		}
+	}
+	for _, val := range vals {
+		sv := fmt.Sprint(val)
 		want, _ := json.Marshal(val)
 		for c := 0; c <= c0+len(want)+8; c++ {
 			for l := 0; l <= c && l <= 2; l++ {
@@ -269,5 +305,51 @@ func verifT3Array() {
 		if e1 == nil && e2 == nil {
 			v.Assert(a1 == a2, fmt.Sprintf("decoding %q into a prefilled [2]int{7,8}: sonic gives %v, encoding/json %v", text, a1, a2))
 		}
+	}
+}
+
+type verifS1 struct {
+	A int8
+	B bool
+}
+
+// verifT3Tokens: the token sequence the monitor saw the generated struct decoder accept,
+// spelled as JSON text, decoded into the same struct by sonic and by encoding/json.
+func verifT3Tokens() {
+	var b strings.Builder
+	for i := 0; i < 24; i++ {
+		t := byte(v.Uint64(fmt.Sprintf("tok[%d]", i)))
+		switch t {
+		case '{', '}', '[', ']', ',', ':', '"':
+			b.WriteByte(t)
+		case 'n':
+			b.WriteString("null")
+		case 'i', 's':
+			b.WriteString("1")
+		case 'b':
+			b.WriteString("true")
+		case 't':
+			b.WriteString(`"x"`)
+		case 0:
+		default:
+			b.WriteByte(t)
+			b.WriteByte('"')
+		}
+	}
+	text := b.String()
+	var s1, s2 verifS1
+	var e1 error
+	func() {
+		defer func() {
+			if r := recover(); r != nil {
+				v.Assert(false, fmt.Sprintf("decoding %q panicked: %v", text, r))
+			}
+		}()
+		e1 = ConfigStd.UnmarshalFromString(text, &s1)
+	}()
+	e2 := json.Unmarshal([]byte(text), &s2)
+	v.Assert((e1 == nil) == (e2 == nil), fmt.Sprintf("sonic and encoding/json disagree on accepting %q into struct{A int8; B bool}: sonic err=%v, encoding/json err=%v", text, e1, e2))
+	if e1 == nil && e2 == nil {
+		v.Assert(s1 == s2, fmt.Sprintf("decoded values differ for %q: %+v vs %+v", text, s1, s2))
 	}
 }
